@@ -18,7 +18,7 @@ pub fn def() -> CheckDef {
 fn meta(_ctx: &Ctx) -> Meta {
     Meta {
         level: "fault_enumeration",
-        rule: "writing: for each package (unsigned, signed, with files, asset) a scripted io::Write sink records every call and (1) fails hard at EVERY byte offset 0..=len, (2) accepts at most k bytes per call for k in {1,2,3,7,16,4095}, seeded random sizes, 1 byte for the first n calls then unlimited, (3) returns Interrupted before every j-th call, (4) accepts zero bytes at an offset; Package::write and PackageMetadata::write must return Ok with exactly the canonical bytes or Err with a prefix of them, never panic. reading: a scripted io::BufRead source (1-byte reads, fixed chunks, random chunks, Interrupted injection, BufReader capacities 1..17) must give the same result as parsing the contiguous bytes; truncation at EVERY offset must give the same result as the contiguous truncated bytes and an error when cut before the payload. Runs in release and verifdbg (debug assertions). distinct_nontrivial = distinct (package, fault script) executions that cut inside the output / completed under a non-trivial chunking".into(),
+        rule: "writing: for each package (unsigned, signed, with files, asset) a scripted io::Write sink records every call and (1) fails hard at EVERY byte offset 0..=len, (2) accepts at most k bytes per call for k in {1,2,3,7,16,4095}, seeded random sizes, 1 byte for the first n calls then unlimited, (3) returns Interrupted before every j-th call, (4) accepts zero bytes at an offset; Package::write and PackageMetadata::write must return Ok with exactly the canonical bytes or Err with a prefix of them, never panic. reading: a scripted io::BufRead source (1-byte reads, fixed chunks, random chunks, Interrupted injection, BufReader capacities 1..17) must give the same result as parsing the contiguous bytes; truncation at EVERY offset must give the same result as the contiguous truncated bytes and an error when cut before the payload. Runs in release and verifdbg (debug assertions). OS level: write_file / write to /dev/full must be an error, writes into a pipe whose reader goes away must return with a prefix read, parsing from a pipe fed in irregular bursts by another thread and from a file must equal parsing the contiguous bytes, write_file must leave the canonical bytes. distinct_nontrivial = distinct (package, fault script) executions that cut inside the output / completed under a non-trivial chunking".into(),
         assumptions: vec!["canonical bytes = Package::write into a Vec".into()],
         floor_distinct: 1000,
     }
@@ -412,6 +412,139 @@ fn run(ctx: &Ctx, rep: &Report) {
             rep.sample(json!({"package": label, "len": bytes.len(), "sink_scripts": scripts.len(), "example_script": format!("{:?}", scripts[scripts.len() / 2])}));
         }
     });
+    os_level(ctx, rep, &pkgs);
+}
+
+/// the same contract against sinks and sources of the operating system instead of scripted ones:
+/// a full device, a pipe nobody reads, a pipe fed in irregular bursts by another thread, a file
+fn os_level(ctx: &Ctx, rep: &Report, pkgs: &[(String, Vec<u8>)]) {
+    use std::io::Write;
+    let dir = ctx.work_dir("os");
+    for (pi, (label, bytes)) in pkgs.iter().enumerate().take(ctx.tier.pick(6, 60)) {
+        let Ok(pkg) = Package::parse(&mut &bytes[..]) else { continue };
+        let w = |what: &str| json!({"package": label, "package_hex": hex::encode(bytes), "os_level": what});
+        // (a) /dev/full: every write fails with ENOSPC
+        if std::path::Path::new("/dev/full").exists() {
+            rep.eval(2);
+            match guard(|| pkg.write_file("/dev/full")) {
+                Err(p) => rep.violation(format!("panic:write_file:{}", p.site()), format!("[{label}] write_file(/dev/full) panics: {}", p.message), w("dev-full"), 0),
+                Ok(Ok(())) => rep.violation("write:success-on-full-device", format!("[{label}] write_file(/dev/full) reports success"), w("dev-full"), 0),
+                Ok(Err(_)) => rep.count("os.dev_full.error_returned", 1),
+            }
+            match guard(|| std::fs::OpenOptions::new().write(true).open("/dev/full").map_err(rpm::Error::from).and_then(|mut f| pkg.write(&mut f))) {
+                Err(p) => rep.violation(format!("panic:write:{}", p.site()), format!("[{label}] write to /dev/full panics: {}", p.message), w("dev-full"), 0),
+                Ok(Ok(())) => rep.violation("write:success-on-full-device", format!("[{label}] write to /dev/full reports success"), w("dev-full"), 0),
+                Ok(Err(_)) => rep.count("os.dev_full.error_returned", 1),
+            }
+        }
+        // (b) a pipe whose read end is closed at once (EPIPE), and one that is closed after k bytes
+        for keep in [0usize, 1, 97, bytes.len() / 2] {
+            let mut fds = [0i32; 2];
+            if unsafe { libc::pipe(fds.as_mut_ptr()) } != 0 {
+                continue;
+            }
+            use std::os::fd::FromRawFd;
+            let mut rd = unsafe { std::fs::File::from_raw_fd(fds[0]) };
+            let mut wr = unsafe { std::fs::File::from_raw_fd(fds[1]) };
+            let reader = std::thread::spawn(move || {
+                use std::io::Read;
+                let mut got = vec![0u8; keep];
+                let mut n = 0;
+                while n < keep {
+                    match rd.read(&mut got[n..]) {
+                        Ok(0) | Err(_) => break,
+                        Ok(k) => n += k,
+                    }
+                }
+                got.truncate(n);
+                drop(rd);
+                got
+            });
+            rep.eval(1);
+            let r = guard(|| pkg.write(&mut wr));
+            drop(wr);
+            let got = reader.join().unwrap_or_default();
+            let mut canonical = Vec::new();
+            let _ = pkg.write(&mut canonical);
+            match r {
+                Err(p) => rep.violation(format!("panic:write:{}", p.site()), format!("[{label}] write into a closed pipe panics: {}", p.message), w("closed-pipe"), 0),
+                Ok(res) => {
+                    if !canonical.starts_with(&got) {
+                        rep.violation("write:os-pipe-not-a-prefix", format!("[{label}] the {} bytes read from the pipe are not a prefix of the canonical bytes", got.len()), w("closed-pipe"), 0);
+                    }
+                    // the pipe buffer (64 KiB) may swallow a small package entirely: both outcomes are fine then
+                    rep.count(if res.is_ok() { "os.closed_pipe.write_ok(buffered)" } else { "os.closed_pipe.error_returned" }, 1);
+                }
+            }
+        }
+        // (c) a pipe fed in irregular bursts by another thread, and a real file
+        {
+            let mut fds = [0i32; 2];
+            if unsafe { libc::pipe(fds.as_mut_ptr()) } == 0 {
+                use std::os::fd::FromRawFd;
+                let rd = unsafe { std::fs::File::from_raw_fd(fds[0]) };
+                let mut wr = unsafe { std::fs::File::from_raw_fd(fds[1]) };
+                let data = bytes.clone();
+                let seed = ctx.seed ^ pi as u64;
+                let feeder = std::thread::spawn(move || {
+                    let mut r = Rng::for_case(seed, "C14-feed", 0);
+                    let mut at = 0;
+                    while at < data.len() {
+                        let span = if r.chance(1, 4) { 4096 } else { 9 };
+                        let n = (1 + r.usize(span)).min(data.len() - at);
+                        if wr.write_all(&data[at..at + n]).is_err() {
+                            break;
+                        }
+                        at += n;
+                        if r.chance(1, 50) {
+                            std::thread::sleep(std::time::Duration::from_micros(200));
+                        }
+                    }
+                });
+                rep.eval(1);
+                let want = Package::parse(&mut &bytes[..]);
+                let got = guard(|| Package::parse(&mut std::io::BufReader::with_capacity(1 + pi * 7, rd)));
+                let _ = feeder.join();
+                match got {
+                    Err(p) => rep.violation(format!("panic:parse:{}", p.site()), format!("[{label}] parsing from a pipe panics: {}", p.message), w("fed-pipe"), 0),
+                    Ok(g) => {
+                        if !same_result(&g, &want) {
+                            rep.violation("read:os-pipe-differs", format!("[{label}] parsing from a pipe fed in bursts gives {} instead of {}", show(&g), show(&want)), w("fed-pipe"), 0);
+                        } else {
+                            rep.count("os.fed_pipe.same_result", 1);
+                        }
+                    }
+                }
+            }
+            let f = dir.join(format!("p{pi}.rpm"));
+            if std::fs::write(&f, bytes).is_ok() {
+                rep.eval(1);
+                let want = Package::parse(&mut &bytes[..]);
+                match guard(|| Package::open(&f)) {
+                    Err(p) => rep.violation(format!("panic:open:{}", p.site()), format!("[{label}] Package::open panics: {}", p.message), w("file"), 0),
+                    Ok(g) => {
+                        if !same_result(&g, &want) {
+                            rep.violation("read:file-differs", format!("[{label}] Package::open gives {} instead of {}", show(&g), show(&want)), w("file"), 0);
+                        } else {
+                            rep.count("os.file.same_result", 1);
+                        }
+                    }
+                }
+                // write_file then read back
+                let out = dir.join(format!("o{pi}.rpm"));
+                if let Ok(Ok(())) = guard(|| pkg.write_file(&out)) {
+                    let mut canonical = Vec::new();
+                    let _ = pkg.write(&mut canonical);
+                    if std::fs::read(&out).ok().as_deref() != Some(&canonical[..]) {
+                        rep.violation("write:file-differs", format!("[{label}] write_file leaves other bytes in the file than write() produces"), w("file"), 0);
+                    } else {
+                        rep.count("os.write_file.canonical", 1);
+                    }
+                }
+            }
+        }
+    }
+    let _ = std::fs::remove_dir_all(&dir);
 }
 
 fn replay(_ctx: &Ctx, w: &serde_json::Value, _rep: &Report) {
